@@ -454,6 +454,34 @@ def ls_must_refuse(msg):
     return None
 
 
+def _ls_listing_mismatch(msg, listed):
+    """fields of an accepted LsAttribute message against the typed listing of the stored value (0 / empty mean absent in
+    this message, so a part whose compared fields are all absent may be missing from the listing)"""
+    n, l, p, b, _ = expand(msg)
+    ln, ll, lp, lb = listed[0], listed[1], listed[2], listed[3]
+    z = lambda bits: 0 if bits == 0x80000000 else bits        # -0.0 is 'no bandwidth' as 0.0 is
+    if n:
+        want = [n[0], n[1], n[4], n[5], n[6], n[7], n[8]]
+        got = [ln[0], ln[1], ln[4], ln[5], ln[6], ln[7], ln[8]] if ln else [[], [], [], [], [], [], []]
+        if want != got: return 'node part %s listed as %s' % (str(want)[:100], str(got)[:100])
+    if l:
+        ix = (0, 5, 6, 7, 8, 9, 10, 11, 12, 13, 14, 15, 16, 17, 18, 19, 20)
+        want = [l[i] for i in ix]; want[5] = z(want[5]); want[6] = z(want[6])
+        if not want[12]: pass
+        got = [ll[i] for i in ix] if ll else [[], 0, 0, 0, [], 0, 0, [], 0, [], [], 0, 0, 0, 0, 0, 0]
+        if want != got: return 'link part %s listed as %s' % (str(want)[:140], str(got)[:140])
+    if p:
+        sids = [list(s) for s in p[3]] if p[3] else ([[0, 0x80, p[2]]] if p[2] else [])
+        want = [p[0], p[1], sids]
+        got = [lp[0], lp[1], lp[3]] if lp else [[], [], []]
+        if want != got: return 'prefix part %s listed as %s' % (str(want)[:100], str(got)[:100])
+    if b:
+        want = [[s[0] if s[0] else [0, 0, 0, 0], s[1], s[2]] if s else [] for s in b]
+        got = lb if lb else [[], [], []]
+        if want != got: return 'peer segment part %s listed as %s' % (str(want)[:100], str(got)[:100])
+    return None
+
+
 def oracle_ls(c, obs):
     if obs == [-1]: return 'panic in attr_from_api of an LsAttribute message'
     if obs[0] == 0: return None
@@ -467,6 +495,9 @@ def oracle_ls(c, obs):
     if (code, flags) != (29, 0x80): return 'stored as attribute type %d flags %#x' % (code, flags)
     if relist != 0: return 'the stored LS attribute value is %s when listed and added again' % ('refused' if relist == 2 else 'changed')
     if dec != 1: return 'the stored LS attribute value is not one its decoder reads back to the same octets'
+    if listed != [99]:
+        why = _ls_listing_mismatch(c['msg'], listed)
+        if why: return 'not stored faithfully: ' + why
     return None
 
 
